@@ -258,7 +258,7 @@ class Serializable(object):  # pylint: disable=too-few-public-methods
         elif isinstance(obj, cls._MARKDOWN_RESULT_STRING_CLASSES):
             return False, str(obj)
         elif isinstance(obj, datetime.timedelta):
-            return False, str(obj.seconds)
+            return False, str(int(obj.total_seconds()))
         elif isinstance(obj, CryptoDataParamsBase) and hasattr(obj, '__str__'):
             return False, str(obj)
         elif attr.has(type(obj)):
